@@ -25,12 +25,17 @@ ALPHA = ["a", " ", '"', "'", "\\", "\n"]
 _MM = {}
 
 
-def mm(rule, many=False):
-    key = (rule, many)
+# meta-model options under which the conversions must be the same ("" = defaults)
+CONFIGS = {"": {}, "use_regexp_group": {"use_regexp_group": True}, "ignore_case+autokwd": {"ignore_case": True, "autokwd": True},
+           "memoization": {"memoization": True}, "no-auto-init": {"auto_init_attributes": False}}
+
+
+def mm(rule, many=False, cfg=""):
+    key = (rule, many, cfg)
     if key not in _MM:
         from textx import metamodel_from_str
 
-        _MM[key] = metamodel_from_str("Model: v%s%s;" % ("*=" if many else "=", rule))
+        _MM[key] = metamodel_from_str("Model: v%s%s;" % ("*=" if many else "=", rule), **CONFIGS[cfg])
     return _MM[key]
 
 
@@ -46,25 +51,25 @@ def strings(L):
                 yield s
 
 
-def load(rule, text, many=False):
+def load(rule, text, many=False, cfg=""):
     try:
-        m = mm(rule, many).model_from_str(text)
+        m = mm(rule, many, cfg).model_from_str(text)
         return ("ok", m.v)
     except Exception as e:
         return ("err", "%s: %s" % (type(e).__name__, str(e)[:120]))
 
 
-def check_strings(ss, quotes):
+def check_strings(ss, quotes, cfg=""):
     text = " ".join(quote(s, q) for s, q in zip(ss, quotes))
-    st, v = load("STRING", text, many=True)
+    st, v = load("STRING", text, many=True, cfg=cfg)
     ok = st == "ok" and v == list(ss) and all(type(x) is str for x in v)
-    return ok, {"rule": "STRING", "text": text, "expected": list(ss), "observed": v}
+    return ok, {"rule": "STRING", "options": CONFIGS[cfg], "text": text, "expected": list(ss), "observed": v}
 
 
-def check_num(rule, text, expected):
-    st, v = load(rule, text)
+def check_num(rule, text, expected, cfg=""):
+    st, v = load(rule, text, cfg=cfg)
     ok = st == "ok" and type(v) is type(expected) and v == expected
-    return ok, {"rule": rule, "text": text, "expected": repr(expected), "observed": repr(v)}
+    return ok, {"rule": rule, "options": CONFIGS[cfg], "text": text, "expected": repr(expected), "observed": repr(v)}
 
 
 def int_literals():
@@ -91,20 +96,21 @@ def float_literals(tier):
 
 def unit_strings(arg):
     kind, items = arg
+    cfg = kind.split("@")[1] if "@" in kind else ""
     u = Unit()
     for ss, quotes in items:
         cid = [kind, list(ss), list(quotes)]
         with watchdog(10):
-            ok, obs = check_strings(ss, quotes)
+            ok, obs = check_strings(ss, quotes, cfg)
         u.case(cid, nontrivial=any(c in s for s in ss for c in "\"'\\\n"), sample=obs if len(ss) > 1 else None)
         u.count(kind)
         if not ok:
-            u.fail(cid, {"kind": "strings", "ss": list(ss), "quotes": list(quotes)}, what=repr(obs)[:300])
+            u.fail(cid, {"kind": "strings", "ss": list(ss), "quotes": list(quotes), "cfg": cfg}, sig="strings " + cfg, what=repr(obs)[:300])
     return u
 
 
 def unit_nums(arg):
-    items = arg
+    cfg, items = arg
     u = Unit()
     for rule, text in items:
         if rule == "BOOL":
@@ -114,13 +120,13 @@ def unit_nums(arg):
         else:
             expected = float(text)
         r = rule.split("-")[0]
-        cid = [rule, text]
+        cid = [rule, text, cfg]
         with watchdog(10):
-            ok, obs = check_num(r, text, expected)
+            ok, obs = check_num(r, text, expected, cfg)
         u.case(cid, nontrivial=True, sample=obs)
-        u.count(rule)
+        u.count(rule + ("@" + cfg if cfg else ""))
         if not ok:
-            u.fail(cid, {"kind": "num", "rule": r, "text": text, "expected": repr(expected)}, what=repr(obs)[:300])
+            u.fail(cid, {"kind": "num", "rule": r, "text": text, "expected": repr(expected), "cfg": cfg}, sig="%s %s" % (rule, cfg), what=repr(obs)[:300])
     return u
 
 
@@ -135,23 +141,28 @@ def run(ctx):
     short = list(strings(L2))
     pairs = [((a, b), (qa, qb)) for a in short for b in short for qa in "\"'" for qb in "\"'"]
     units = [("single", c) for c in chunks(singles, 500)] + [("pair", c) for c in chunks(pairs, 500)]
+    small = [((s,), (q,)) for s in strings(3) for q in "\"'"]
+    for cfg in CONFIGS:
+        if cfg:
+            units += [("single@" + cfg, c) for c in chunks(small, 500)]
     ctx.pmap(unit_strings, units)
     nums = [("INT", t) for t in int_literals()] + [("NUMBER-int", t) for t in int_literals()]
     fl = list(float_literals(ctx.tier))
     for rule in ("FLOAT", "STRICTFLOAT", "NUMBER"):
         nums += [(rule, t) for t in fl]
     nums += [("BOOL", t) for t in ("True", "true", "False", "false", "0", "1")]
-    ctx.pmap(unit_nums, chunks(nums, 500))
+    ctx.pmap(unit_nums, [(cfg, c) for cfg in CONFIGS for c in chunks(nums, 500)])
     return {
         "rule": "strings: all over %r up to length %d singly (x2 quote styles) and all ordered pairs up to length %d (x4 quote styles) on one line; "
                 "ints: sign x 1-4 digits over 019 through INT and NUMBER; floats: sign x int part x optional fraction x optional exponent through "
-                "FLOAT, STRICTFLOAT, NUMBER; BOOL: 6 spellings. non-trivial for strings = contains a quote, backslash or newline" % (ALPHA, L1, L2),
-        "exhaustive": True, "float_literals": len(fl),
+                "FLOAT, STRICTFLOAT, NUMBER; BOOL: 6 spellings; all numbers and all strings up to length 3 again under each option set of "
+                "metamodel_options. non-trivial for strings = contains a quote, backslash or newline" % (ALPHA, L1, L2),
+        "exhaustive": True, "float_literals": len(fl), "metamodel_options": CONFIGS,
     }, ["strings ending in a backslash are excluded by the property statement", "float literals are finite by construction (exponent <= 30)"]
 
 
 def replay(p):
     if p["kind"] == "strings":
-        return check_strings(tuple(p["ss"]), tuple(p["quotes"]))
+        return check_strings(tuple(p["ss"]), tuple(p["quotes"]), p.get("cfg", ""))
     exp = eval(p["expected"])
-    return check_num(p["rule"], p["text"], exp)
+    return check_num(p["rule"], p["text"], exp, p.get("cfg", ""))
